@@ -10,6 +10,7 @@ import DesyncModel.Inv.Holder
 import DesyncModel.Inv.SigReach
 import DesyncModel.Inv.DrainReach
 import DesyncModel.Inv.ResReach
+import DesyncModel.Inv.TaskWaker
 
 namespace Desync.C07
 open Desync Gen
@@ -163,5 +164,31 @@ theorem resolves_only_after_the_operation_finished {s : State} (hr : Reachable s
     (hok : fu.res = .ok) : ∃ (j : Nat) (jb : Job), s.jobs[j]? = some jb ∧
       ((jb.kind.res = some r ∧ jb.ended = true) ∨ (∃ op g r', jb.kind = .susp op g r r' ∧ jb.begun = true)) :=
   (resInv_reachable hr).ok r fu hf hok
+
+/-- **The waker held in a result slot is always a polling task's context waker**, in every reachable state (`TaskWakerInv`,
+inductive over all program counters and environment steps): `signal` takes the slot's waker and fires it, so what it wakes is
+the task awaiting the future — never a queue, a thread inside `sync`, or a latch. -/
+theorem result_slot_waker_is_a_task_waker {s : State} (hr : Reachable s) {f : Nat} {fu : Fut} {w : Waker}
+    (hf : s.futs[f]? = some fu) (hw : fu.waker = some w) : ∃ t, w = .task t := by
+  have h := (taskWakerInv_reachable hr).fut f fu hf w hw
+  cases w <;> simp_all [Waker.isTask]
+
+/-- the same for the two wakers a `SyncFuture` registers on behalf of the task polling it (on its `queue_ready` receiver and
+with the event the user future awaits) -/
+theorem sync_future_wakers_are_task_wakers {s : State} (hr : Reachable s) {u : Nat} {sf : SyncFut} (hu : s.sfs[u]? = some sf) :
+    (∀ w, sf.readyWaker = some w → ∃ t, w = .task t) ∧ (∀ w, sf.userReg = some w → ∃ t, w = .task t) := by
+  have h := (taskWakerInv_reachable hr).sf u sf hu
+  refine ⟨fun w hw => ?_, fun w hw => ?_⟩
+  · have := h.1 w hw; cases w <;> simp_all [Waker.isTask]
+  · have := h.2 w hw; cases w <;> simp_all [Waker.isTask]
+
+/-- non-vacuity: a slot holding the waker of the task on thread 2 -/
+example : TaskWakerInv { initState 1 0 1 with futs := [{ q := 0, res := .none, waker := some (.task 2) }] } := by
+  refine ⟨?_, ?_⟩
+  · intro f fu hf
+    match f with
+    | 0 => simp at hf; subst hf; exact optTask_task 2
+    | n + 1 => simp at hf
+  · intro u sf hu; simp [initState] at hu
 
 end Desync.C07
